@@ -11,6 +11,7 @@ import (
 	"strings"
 	"testing/fstest"
 	"testing/iotest"
+	"time"
 
 	"github.com/miekg/dns"
 	"pgregory.net/rapid"
@@ -174,15 +175,39 @@ func parseZone(c *zoneCase, files map[string]string, limit int) ([]dns.RR, error
 		}
 		zp.SetIncludeFS(m)
 	}
-	var out []dns.RR
-	for rr, ok := zp.Next(); ok; rr, ok = zp.Next() {
-		out = append(out, rr)
-		if len(out) > limit {
-			return out, fmt.Errorf("the parser keeps returning records (stopped after %d)", limit)
-		}
+	// the parse runs under a watchdog (orders of magnitude above its normal cost): a parser that
+	// does not come back is a violation, not a reason for the whole run to time out
+	type result struct {
+		out []dns.RR
+		err error
 	}
-	return out, zp.Err()
+	done := make(chan result, 1)
+	go func() {
+		var r result
+		defer func() {
+			if x := recover(); x != nil {
+				r.err = fmt.Errorf("panic: %v", x)
+			}
+			done <- r
+		}()
+		for rr, ok := zp.Next(); ok; rr, ok = zp.Next() {
+			r.out = append(r.out, rr)
+			if len(r.out) > limit {
+				r.err = fmt.Errorf("the parser keeps returning records (stopped after %d)", limit)
+				return
+			}
+		}
+		r.err = zp.Err()
+	}()
+	select {
+	case r := <-done:
+		return r.out, r.err
+	case <-time.After(parseWatchdog):
+		return nil, fmt.Errorf("the parser did not return within %v", parseWatchdog)
+	}
 }
+
+var parseWatchdog = 120 * time.Second
 
 func nontrivialZone(z *zm.Zone) bool {
 	check := func(items []zm.Item) bool {
